@@ -313,6 +313,22 @@ inductive ObjKey where
   | bridgeCall (nonce : Nat)
   deriving DecidableEq, Repr
 
+def ObjKey.kind : ObjKey → String
+  | .oracleSet _ => "oracleSet" | .batch _ _ => "batch" | .bridgeCall _ => "bridgeCall"
+
+def ObjKey.nonce : ObjKey → Nat
+  | .oracleSet n => n | .batch _ n => n | .bridgeCall n => n
+
+/-- token contract text of a batch key ("" for the other kinds, whose keys have no such component) -/
+def ObjKey.token : ObjKey → String
+  | .batch t _ => t | _ => ""
+
+def mkKey (kind token : String) (nonce : Nat) : Option ObjKey :=
+  if kind == "oracleSet" then some (.oracleSet nonce)
+  else if kind == "batch" then some (.batch token nonce)
+  else if kind == "bridgeCall" then some (.bridgeCall nonce)
+  else none
+
 structure OracleRec where
   bridger : String
   external : String
@@ -334,12 +350,14 @@ structure HState where
   byExternal : List (String × Nat) := []       -- index: external address text ↦ oracle address
   oracles : List (Nat × OracleRec) := []       -- oracle records
   confirms : List Entry := []
+  ever : List (ObjKey × List Nat) := []        -- ghost: every object ever stored (keys are never reused: nonces are counters)
+  removed : List ObjKey := []                  -- ghost: keys whose object was deleted
 
-inductive Err where | notFound | sigDecode | noOracle | mismatch | badSig | duplicate
+inductive Err where | notFound | sigDecode | noOracle | mismatch | badSig | duplicate | modelGap
   deriving DecidableEq, Repr
 
 structure ConfirmMsg where
-  key : ObjKey
+  key : ObjKey                -- what the message names: kind, token contract (batch), nonce
   bridger : String
   external : String
   sig : Option (List Nat)     -- `none`: the signature text is not hex
@@ -348,8 +366,10 @@ structure ConfirmMsg where
 def hasConfirm (st : HState) (k : ObjKey) (oracle : Nat) : Bool :=
   st.confirms.any fun e => e.key == k && e.oracle == oracle
 
-/-- `*ConfirmHandler` + `ValidateConfirmSign`, in the order of the code; `recover digest sig` is
-`EthAddressFromSignature` / `TronAddressFromSignature` (opaque) -/
+/-- SPECIFICATION of `*ConfirmHandler` + `ValidateConfirmSign`: the object is looked up, the duplicate is checked and the
+confirmation is filed under exactly the key the message names; `recover digest sig` is `EthAddressFromSignature` /
+`TronAddressFromSignature` (opaque).  `confirmStepP` below is the same handler driven by the key plan REGENERATED from the
+Go source; `Proofs/C12Handler.lean` proves the two equal for the plans the source has now. -/
 def confirmStep (recover : List Nat → List Nat → Option String) (st : HState) (m : ConfirmMsg) : Except Err HState :=
   match st.objects.lookup m.key with
   | none => .error .notFound
@@ -369,24 +389,222 @@ def confirmStep (recover : List Nat → List Nat → Option String) (st : HState
           else if hasConfirm st m.key oracle then .error .duplicate
           else .ok { st with confirms := ⟨m.key, oracle, m.bridger, m.external, sig, digest, r⟩ :: st.confirms }
 
+/-! ### the handler as the source spells it: keys from the regenerated plan -/
+
+/-- value of a key: the components the key function was given -/
+structure KeyVal where
+  token : Option String := none
+  nonce : Option Nat := none
+  oracle : Bool := false
+  deriving DecidableEq, Repr
+
+def tokenExpr (m found : ObjKey) (e : String) : Option String :=
+  if e == "msg.TokenContract" then some m.token
+  else if e == "obj.TokenContract" then some found.token
+  else none
+
+def nonceExpr (m found : ObjKey) (e : String) : Option Nat :=
+  if e == "msg.Nonce" then some m.nonce
+  else if e == "obj.Nonce" || e == "obj.BatchNonce" then some found.nonce
+  else none
+
+/-- evaluate the components of a key reference; `m` = what the message names, `found` = key of the looked-up object -/
+def evalSlots (m found : ObjKey) : List (String × String) → KeyVal → Option KeyVal
+  | [], acc => some acc
+  | (kind, e) :: rest, acc =>
+    if kind == "token" then
+      match tokenExpr m found e with
+      | some t => evalSlots m found rest { acc with token := some t }
+      | none => none
+    else if kind == "nonce" then
+      match nonceExpr m found e with
+      | some n => evalSlots m found rest { acc with nonce := some n }
+      | none => none
+    else if kind == "oracle" then
+      if e == "oracle" then evalSlots m found rest { acc with oracle := true } else none
+    else none
+
+/-- does a stored object's key agree with the given components (a component the key function / scan does not
+constrain matches anything) -/
+def keyMatches (kind : String) (v : KeyVal) (k : ObjKey) : Bool :=
+  k.kind == kind &&
+  (match v.token with | some t => k.token == t | none => true) &&
+  (match v.nonce with | some n => k.nonce == n | none => true)
+
+/-- the object assignments of the handler, in source order: the first one that yields an object wins -/
+def findObject (kind : String) (st : HState) (m : ObjKey) : List KeyRef → Option (ObjKey × List Nat)
+  | [] => none
+  | r :: rest =>
+    match evalSlots m m r.slots {} with
+    | none => findObject kind st m rest
+    | some v =>
+      match st.objects.find? (fun p => keyMatches kind v p.1) with
+      | some p => some p
+      | none => findObject kind st m rest
+
+/-- the confirm-store key a reference denotes: needs a nonce, the oracle address, and (batch) a token -/
+def refKey (kind : String) (m found : ObjKey) (r : KeyRef) : Option ObjKey :=
+  match evalSlots m found r.slots {} with
+  | some v =>
+    if !v.oracle then none else
+    match v.nonce with
+    | none => none
+    | some n =>
+      if kind == "batch" then
+        match v.token with
+        | some t => mkKey kind t n
+        | none => none
+      else mkKey kind "" n
+  | none => none
+
+def confirmStepP (P : Plan) (recover : List Nat → List Nat → Option String) (st : HState) (m : ConfirmMsg) : Except Err HState :=
+  match findObject P.kind st m.key P.lookups with
+  | none => .error .notFound
+  | some (fk, digest) =>
+    match m.sig with
+    | none => .error .sigDecode
+    | some sig =>
+      match st.byExternal.lookup m.external with
+      | none => .error .noOracle
+      | some oracle =>
+        match st.oracles.lookup oracle with
+        | none => .error .noOracle
+        | some r =>
+          if r.external ≠ m.external then .error .mismatch
+          else if r.bridger ≠ m.bridger then .error .mismatch
+          else if recover digest sig ≠ some r.external then .error .badSig
+          else
+            match refKey P.kind m.key fk P.dup, refKey P.kind m.key fk P.store with
+            | some dk, some sk =>
+              if hasConfirm st dk oracle then .error .duplicate
+              else .ok { st with confirms := ⟨sk, oracle, m.bridger, m.external, sig, digest, r⟩ :: st.confirms }
+            | _, _ => .error .modelGap
+
+def noPlan : Plan := ⟨"", "", [], [], [], ⟨"", "", []⟩, ⟨"", "", []⟩, []⟩
+
+def planFor (k : ObjKey) : Plan := (handlerPlans.find? (fun P => P.kind == k.kind)).getD noPlan
+
+/-- the handler with the key plan the source has now -/
+def confirmStepG (recover : List Nat → List Nat → Option String) (st : HState) (m : ConfirmMsg) : Except Err HState :=
+  confirmStepP (planFor m.key) recover st m
+
+/-- the key components a handler for `kind` must use: everything the message names -/
+def fullKey (kind : String) : List (String × String) :=
+  if kind == "batch" then [("token", "msg.TokenContract"), ("nonce", "msg.Nonce")] else [("nonce", "msg.Nonce")]
+
+/-- the same components read from the stored object's own fields -/
+def objKeyAlts (kind : String) : List (List (String × String)) :=
+  if kind == "batch" then [[("token", "obj.TokenContract"), ("nonce", "obj.BatchNonce")]] else [[("nonce", "obj.Nonce")]]
+
+def endsWith (s suffix : String) : Bool := (s.toList.reverse.take suffix.length).reverse == suffix.toList
+
+/-- the plan is the one `confirmStep` specifies: one exact-key lookup through the key function the object store writes
+with, fed with every coordinate the message names; duplicate check and store through one confirm key function fed with
+the same coordinates plus the address ValidateConfirmSign returned; the checkpoint computed over the looked-up object
+under the keeper's gravity id; ValidateConfirmSign given the message's bridger, external address, signature and that
+checkpoint; in this order -/
+def planExact (P : Plan) : Bool :=
+  P.order == ["lookup", "notfound", "checkpoint", "validate", "dup", "store"] &&
+  P.lookups.length == 1 &&
+  P.lookups.all (fun r => r.slots == fullKey P.kind &&
+    (objectKeys.lookup P.kind).any (fun o => o.keyFn == r.keyFn && r.keyFn != "" && r.keyFn != "scan" && (objKeyAlts P.kind).contains o.slots)) &&
+  P.dup.slots == fullKey P.kind ++ [("oracle", "oracle")] &&
+  P.store.slots == P.dup.slots && P.store.keyFn == P.dup.keyFn && P.dup.keyFn != "" && P.dup.keyFn != "scan" &&
+  P.checkpoint.length == 2 && P.checkpoint.all (fun c => endsWith c "(obj; k.GetGravityID(ctx))") &&
+  P.validate == ["msg.BridgerAddress", "msg.ExternalAddress", "msg.Signature", "checkpoint"]
+
 inductive Op where
-  | addObject (k : ObjKey) (digest : List Nat)   -- store an oracle set / batch / bridge call (ignored if the key exists)
+  | addObject (k : ObjKey) (digest : List Nat)   -- store an oracle set / batch / bridge call (ignored if the key was ever used)
   | setOracle (oracle : Nat) (r : OracleRec)
   | setIndex (external : String) (oracle : Nat)
   | confirm (m : ConfirmMsg)
+  | removeObject (k : ObjKey) (dropObject dropConfirms : Bool)   -- a pruning site: deletes the object and / or its confirms
   deriving DecidableEq, Repr
 
 def upsert {κ ν : Type} [BEq κ] (k : κ) (v : ν) : List (κ × ν) → List (κ × ν)
   | [] => [(k, v)]
   | (k', v') :: r => if k' == k then (k, v) :: r else (k', v') :: upsert k v r
 
-def step (recover : List Nat → List Nat → Option String) (st : HState) : Op → HState
-  | .addObject k d => if (st.objects.lookup k).isSome then st else { st with objects := (k, d) :: st.objects }
+/-- state change of everything but a confirm message -/
+def stepOther (st : HState) : Op → HState
+  | .addObject k d =>
+    if (st.ever.lookup k).isSome then st else { st with objects := (k, d) :: st.objects, ever := (k, d) :: st.ever }
   | .setOracle o r => { st with oracles := upsert o r st.oracles }
   | .setIndex e o => { st with byExternal := upsert e o st.byExternal }
+  | .removeObject k dobj dconf =>
+    { st with objects := if dobj then st.objects.filter (fun p => p.1 != k) else st.objects,
+              removed := if dobj then k :: st.removed else st.removed,
+              confirms := if dconf then st.confirms.filter (fun e => e.key != k) else st.confirms }
+  | .confirm _ => st
+
+def step (recover : List Nat → List Nat → Option String) (st : HState) : Op → HState
   | .confirm m => match confirmStep recover st m with | .ok st' => st' | .error _ => st
+  | op => stepOther st op
+
+/-- the step function the driver runs: confirm messages go through the regenerated plan -/
+def stepG (recover : List Nat → List Nat → Option String) (st : HState) : Op → HState
+  | .confirm m => match confirmStepG recover st m with | .ok st' => st' | .error _ => st
+  | op => stepOther st op
 
 def run (recover : List Nat → List Nat → Option String) (st : HState) (ops : List Op) : HState :=
   ops.foldl (step recover) st
+
+def runG (recover : List Nat → List Nat → Option String) (st : HState) (ops : List Op) : HState :=
+  ops.foldl (stepG recover) st
+
+/-- which `k.Delete…` calls delete an object / its confirmations -/
+def objectDeletes : List String := ["DeleteBatch", "DeleteOracleSet", "DeleteOutgoingBridgeCall"]
+def confirmDeletes : List String := ["DeleteBatchConfirm", "DeleteOracleSetConfirm", "DeleteBridgeCallConfirm"]
+
+/-- (dropObject, dropConfirms) of a pruning site, from the regenerated `deleteSites` -/
+def removeFlags (site : String) : Bool × Bool :=
+  match deleteSites.lookup site with
+  | some calls => (calls.any objectDeletes.contains, calls.any confirmDeletes.contains)
+  | none => (false, false)
+
+/-! ## Part 3 — signature decoding (`EthAddressFromSignature` / `TronAddressFromSignature`), curve recovery opaque -/
+
+/-- the length guard and the recovery-byte normalisation, with the constants of the source (`SigRule`, regenerated):
+`if len(signature) < minLen → error`; `if signature[64] ∈ vNorm { signature[64] -= vSub }` -/
+def decodeSig (r : SigRule) (sig : List Nat) : Option (List Nat) :=
+  if sig.length < r.minLenN then none
+  else
+    let v := sig.getD 64 0
+    some (if r.vNormN.contains v then sig.set 64 (v - r.vSubN) else sig)
+
+/-- the prefix constant a decoder hashes in front of the checkpoint -/
+def prefixOf (r : SigRule) : List Nat :=
+  if r.pfx == "signaturePrefix" then goSignPrefix else if r.pfx == "tronSignaturePrefix" then tronSignPrefix else []
+
+/-- `…AddressFromSignature`: `H` = Keccak-256, `ec hash sig65` = go-ethereum's `SigToPub` + address text (both opaque) -/
+def recoverVia (r : SigRule) (H : List Nat → List Nat) (ec : List Nat → List Nat → Option String)
+    (digest sig : List Nat) : Option String :=
+  match decodeSig r sig with
+  | none => none
+  | some s' => ec (H (prefixOf r ++ digest)) s'
+
+def sigRuleFor (tron : Bool) : SigRule :=
+  (sigRules.find? (fun r => r.func == (if tron then "TronAddressFromSignature" else "EthAddressFromSignature"))).getD
+    ⟨"", "", [], "", "", "", 0, [], 0⟩
+
+/-! ## Part 4 — the bytes of the store keys -/
+
+/-- the values a key function is given -/
+structure KeyEnv where
+  token : List Nat := []    -- bytes of the token contract text
+  nonce : Nat := 0
+  oracle : List Nat := []   -- bytes of the oracle address
+  deriving DecidableEq, Repr
+
+def encPart (env : KeyEnv) (p : String × String) : List Nat :=
+  if p.1 == "const" then (keyPrefixes.lookup p.2).getD []
+  else if p.1 == "text" then env.token
+  else if p.1 == "be8" then toBE 8 env.nonce
+  else if p.1 == "addr" then env.oracle
+  else []
+
+/-- the key bytes a key function builds (layout regenerated from its nested `append`s) -/
+def encKey (fn : String) (env : KeyEnv) : List Nat :=
+  ((keyParts.lookup fn).getD []).flatMap (encPart env)
 
 end FxVerif.Model.C12
